@@ -3,8 +3,8 @@
    about the real-number reading (instance RNum) of the model M_Coords.v, whose
    formulas are the regenerated kernels of gen/G_coords.v.  `e` is the (unused)
    erf parameter of the instance. *)
-From Coq Require Import Reals ZArith Lra.
-From Sky Require Import Num NumR G_coords M_Coords S_Coords P_Coords_Real P_Coords P_Coords_Rot P_Coords_Sky.
+From Coq Require Import Reals ZArith Lra SpecFloat.
+From Sky Require Import Num NumR G_coords M_Coords S_Coords P_Coords_Real P_Coords P_Coords_Rot P_Coords_Sky P_Coords_Astropy M_CoordsSF.
 Open Scope R_scope.
 
 (* ------------------------------------------------------------ angular_separation *)
@@ -107,6 +107,23 @@ Theorem C19_rotation_true_lands_on_source : forall (e : R -> R) ra1 dec1 ra2 dec
 Proof. exact rot_sv_true_on_source. Qed.
 Print Assumptions C19_rotation_true_lands_on_source.
 
+(* On IEEE doubles the antipodal case of C19_rotation_maps_v1_to_v2 fails (open
+   finding C19-rotate-antipodal).  Closed witness in Coq's SpecFloat binary64
+   arithmetic for the algebraic part of the code (cross product, norm,
+   normalisation, matrix, matrix-vector product), inputs = the unit vectors
+   numpy computes for (1.0, 0.5) and (1.0 + pi, -0.5): the cross product is
+   (-2^-54, 0, 2^-54) instead of 0, its normalisation (-0.7071, 0, 0.7071) is not
+   perpendicular to v1 (n.v1 > 2^-9), and the image of v1 misses v2:
+   (R v1).v2 < 1 - 2^-16, i.e. by more than 5.5e-3 rad. *)
+Theorem C19_rotation_float_antipodal_refuted :
+  rot_axis C19SF wit_v1 wit_v2
+    = (S754_finite true 6369051672525772 (-53), S754_zero false, S754_finite false 6369051672525772 (-53))
+  /\ SFltb (c19_of 1 (-9)) (dot C19SF (rot_axis C19SF wit_v1 wit_v2) wit_v1) = true
+  /\ SFltb (dot C19SF (matvec C19SF (rot_matrix_of C19SF wit_c wit_s (rot_axis C19SF wit_v1 wit_v2)) wit_v1) wit_v2)
+           (c19_of 65535 (-16)) = true.
+Proof. vm_compute. repeat split; reflexivity. Qed.
+Print Assumptions C19_rotation_float_antipodal_refuted.
+
 (* ------------------------------------------------------------ azimuth <-> right ascension *)
 Theorem C19_azi_ra_involution : forall (e : R -> R) azi mjd,
   0 <= azi < 2 * PI ->
@@ -190,6 +207,61 @@ Theorem C19_rses_preserves_frame :
 Proof. exact rses_frame. Qed.
 Print Assumptions C19_rses_preserves_frame.
 
+(* with astropy's own formulas (transcribed in M_Coords: ap_position_angle,
+   ap_separation = Vincenty, ap_offset_by regular branch) in place of the
+   oracles, the contracts are theorems: no premise on oracles is left.  The
+   guard (regular branch, or exactly a pole) excludes only astropy's approximate
+   pole branch 0 < cos(dec) < 1e-12, where the contract is false
+   (C19_astropy_offset_gap_refuted). *)
+Theorem C19_rses_astropy_preserves_separation :
+  forall (e : R -> R) src_ra src_dec true_ra true_dec reco_ra reco_dec,
+  (1 / 1000000000000 <= cos src_dec \/ src_dec = PI / 2 \/ src_dec = - (PI / 2)) ->
+  angsep (RNum e) (fst (rses_ap (RNum e) src_ra src_dec true_ra true_dec reco_ra reco_dec))
+                  (snd (rses_ap (RNum e) src_ra src_dec true_ra true_dec reco_ra reco_dec)) src_ra src_dec None
+  = angsep (RNum e) reco_ra reco_dec true_ra true_dec None.
+Proof. exact rses_ap_preserves_sep. Qed.
+Print Assumptions C19_rses_astropy_preserves_separation.
+
+Theorem C19_rses_astropy_preserves_frame :
+  forall (e : R -> R) src_ra src_dec true_ra true_dec reco_ra reco_dec,
+  (1 / 1000000000000 <= cos src_dec \/ src_dec = PI / 2 \/ src_dec = - (PI / 2)) ->
+  let out := rses_ap (RNum e) src_ra src_dec true_ra true_dec reco_ra reco_dec in
+  vdot (dirv (fst out) (snd out)) (dirv src_ra src_dec) = vdot (dirv reco_ra reco_dec) (dirv true_ra true_dec)
+  /\ vdot (dirv (fst out) (snd out)) (north src_ra src_dec) = vdot (dirv reco_ra reco_dec) (north true_ra true_dec)
+  /\ vdot (dirv (fst out) (snd out)) (east src_ra src_dec) = vdot (dirv reco_ra reco_dec) (east true_ra true_dec).
+Proof. exact rses_ap_frame. Qed.
+Print Assumptions C19_rses_astropy_preserves_frame.
+
+(* ranges hold for every real input, pole branch included *)
+Theorem C19_rses_astropy_range :
+  forall (e : R -> R) src_ra src_dec true_ra true_dec reco_ra reco_dec,
+  0 <= fst (rses_ap (RNum e) src_ra src_dec true_ra true_dec reco_ra reco_dec) < 2 * PI
+  /\ - (PI / 2) <= snd (rses_ap (RNum e) src_ra src_dec true_ra true_dec reco_ra reco_dec) <= PI / 2.
+Proof. exact rses_ap_range. Qed.
+Print Assumptions C19_rses_astropy_range.
+
+(* the three astropy formulas meet their contracts *)
+Theorem C19_astropy_contracts :
+  forall (e : R -> R),
+  (forall l1 b1 l2 b2, ap_separation (RNum e) l1 b1 l2 b2 = acos (vdot (dirv l1 b1) (dirv l2 b2)))
+  /\ (forall l1 b1 l2 b2,
+      sin (acos (vdot (dirv l1 b1) (dirv l2 b2))) * cos (ap_position_angle (RNum e) l1 b1 l2 b2) = vdot (dirv l2 b2) (north l1 b1)
+      /\ sin (acos (vdot (dirv l1 b1) (dirv l2 b2))) * sin (ap_position_angle (RNum e) l1 b1 l2 b2) = vdot (dirv l2 b2) (east l1 b1))
+  /\ (forall lon lat pa d,
+      (1 / 1000000000000 <= cos lat \/ lat = PI / 2 \/ lat = - (PI / 2)) -> 0 <= d <= PI ->
+      dirv (fst (ap_offset_by (RNum e) lon lat pa d)) (snd (ap_offset_by (RNum e) lon lat pa d)) = offset_point lon lat pa d).
+Proof.
+  intros e. split; [exact (ap_separation_R e)|]. split; [exact (ap_position_angle_R e) | exact (ap_offset_by_dirv e)].
+Qed.
+Print Assumptions C19_astropy_contracts.
+
+(* the guard is needed: in astropy's approximate pole branch the offset contract fails *)
+Theorem C19_astropy_offset_gap_refuted : forall (e : R -> R),
+  exists lon lat pa d, - (PI / 2) <= lat <= PI / 2 /\ 0 <= d <= PI /\ 0 < cos lat < 1 / 1000000000000
+    /\ dirv (fst (ap_offset_by (RNum e) lon lat pa d)) (snd (ap_offset_by (RNum e) lon lat pa d)) <> offset_point lon lat pa d.
+Proof. exact ap_offset_by_gap_refuted. Qed.
+Print Assumptions C19_astropy_offset_gap_refuted.
+
 (* the code performs the rotation unconditionally: no `if`, a single `return` *)
 Theorem C19_rses_unconditional : rses_nif = 0%Z /\ rses_nreturn = 1%Z.
 Proof. exact (conj K_rses_nif K_rses_nreturn). Qed.
@@ -217,12 +289,71 @@ Proof.
 Qed.
 Print Assumptions C19_range_partial.
 
+(* the exact image of hor_to_equ_transform on the physical domain at a fixed
+   time: [0, 2 pi) x [0, pi] onto [0, 2 pi) x [0, pi] — southern declinations
+   are never produced, every dec in (pi/2, pi] is *)
+Theorem C19_hor_to_equ_image : forall (e : R -> R) mjd,
+  (forall azi zen, 0 <= azi < 2 * PI -> 0 <= zen <= PI ->
+     0 <= fst (hor2equ (RNum e) azi zen mjd) < 2 * PI /\ 0 <= snd (hor2equ (RNum e) azi zen mjd) <= PI)
+  /\ (forall ra dec, 0 <= ra < 2 * PI -> 0 <= dec <= PI ->
+     exists azi zen, 0 <= azi < 2 * PI /\ 0 <= zen <= PI /\ hor2equ (RNum e) azi zen mjd = (ra, dec)).
+Proof. exact hor2equ_image. Qed.
+Print Assumptions C19_hor_to_equ_image.
+
 (* the full range statement is false: hor_to_equ_transform returns dec = pi - zen *)
 Theorem C19_range_full_refuted : forall (e : R -> R),
   exists azi zen mjd, 0 <= azi < 2 * PI /\ 0 <= zen <= PI
     /\ ~ (- (PI / 2) <= snd (hor2equ (RNum e) azi zen mjd) <= PI / 2).
 Proof. exact hor2equ_dec_refuted. Qed.
 Print Assumptions C19_range_full_refuted.
+
+(* ------------------------------------------------------------ end to end *)
+(* what the analysis sees: an MC event rotated onto the source (either rotation
+   routine) enters the psi data field and the spatial signal PDF with exactly the
+   separation it had from its true direction; a direction drawn at opening
+   angle psi is seen at psi (or at the configured floor) *)
+Theorem C19_pipeline_rotation : forall (e : R -> R) ra1 dec1 ra2 dec2 ra3 dec3,
+  tdm_psi (RNum e) (fst (rot_sv (RNum e) ra1 dec1 ra2 dec2 ra3 dec3)) (snd (rot_sv (RNum e) ra1 dec1 ra2 dec2 ra3 dec3))
+          ra2 dec2 None = angsep (RNum e) ra3 dec3 ra1 dec1 None
+  /\ signalpdf_psi (RNum e) ra2 dec2 (fst (rot_sv (RNum e) ra1 dec1 ra2 dec2 ra3 dec3))
+                   (snd (rot_sv (RNum e) ra1 dec1 ra2 dec2 ra3 dec3)) = angsep (RNum e) ra3 dec3 ra1 dec1 None.
+Proof. exact pipeline_rot. Qed.
+Print Assumptions C19_pipeline_rotation.
+
+Theorem C19_pipeline_rotation_astropy : forall (e : R -> R) src_ra src_dec true_ra true_dec reco_ra reco_dec,
+  (1 / 1000000000000 <= cos src_dec \/ src_dec = PI / 2 \/ src_dec = - (PI / 2)) ->
+  tdm_psi (RNum e) (fst (rses_ap (RNum e) src_ra src_dec true_ra true_dec reco_ra reco_dec))
+          (snd (rses_ap (RNum e) src_ra src_dec true_ra true_dec reco_ra reco_dec)) src_ra src_dec None
+    = angsep (RNum e) reco_ra reco_dec true_ra true_dec None
+  /\ signalpdf_psi (RNum e) src_ra src_dec (fst (rses_ap (RNum e) src_ra src_dec true_ra true_dec reco_ra reco_dec))
+                   (snd (rses_ap (RNum e) src_ra src_dec true_ra true_dec reco_ra reco_dec))
+    = angsep (RNum e) reco_ra reco_dec true_ra true_dec None.
+Proof. exact pipeline_rses_ap. Qed.
+Print Assumptions C19_pipeline_rotation_astropy.
+
+Theorem C19_pipeline_psi : forall (e : R -> R) src_dec src_ra psi t f,
+  0 <= psi <= PI ->
+  tdm_psi (RNum e) (snd (psi2decra (RNum e) src_dec src_ra psi t)) (fst (psi2decra (RNum e) src_dec src_ra psi t))
+          src_ra src_dec None = psi
+  /\ tdm_psi (RNum e) (snd (psi2decra (RNum e) src_dec src_ra psi t)) (fst (psi2decra (RNum e) src_dec src_ra psi t))
+          src_ra src_dec (Some f) = Rmax psi f.
+Proof. exact pipeline_psi. Qed.
+Print Assumptions C19_pipeline_psi.
+
+(* ------------------------------------------------------------ the remaining guards are needed *)
+Theorem C19_azi_ra_involution_guard_needed : forall (e : R -> R) mjd,
+  azi2ra (RNum e) (azi2ra (RNum e) (2 * PI) mjd) mjd <> 2 * PI.
+Proof. exact azi2ra_guard_needed. Qed.
+Print Assumptions C19_azi_ra_involution_guard_needed.
+
+Theorem C19_psi_guard_needed : forall (e : R -> R) src_dec src_ra psi t,
+  (psi < 0 \/ PI < psi) ->
+  angsep (RNum e) (snd (psi2decra (RNum e) src_dec src_ra psi t))
+                  (fst (psi2decra (RNum e) src_dec src_ra psi t)) src_ra src_dec None <> psi.
+Proof.
+  intros e sd sr psi t [H|H]; [exact (psi2decra_guard_needed e sd sr psi t H) | exact (psi2decra_guard_needed_hi e sd sr psi t H)].
+Qed.
+Print Assumptions C19_psi_guard_needed.
 
 (* ------------------------------------------------------------ non-vacuity *)
 Example C19_nonvacuous_ranges :
@@ -232,6 +363,10 @@ Proof.
   generalize PI2_1; intros H.
   split; [exists 1; lra|]. split; [exists 1; lra | exists PI; lra].
 Qed.
+
+(* the guard of the astropy theorems is met e.g. on the equator *)
+Example C19_nonvacuous_guard : 1 / 1000000000000 <= cos 0 /\ - (PI / 2) <= 0 <= PI / 2.
+Proof. rewrite cos_0. generalize PI_RGT_0. lra. Qed.
 
 (* two different coordinate pairs denoting the same point (the pole) *)
 Example C19_nonvacuous_equal_directions : dirv 0 (PI / 2) = dirv 1 (PI / 2) /\ (0 <> 1).
